@@ -6,7 +6,7 @@ Open Scope Z_scope.
 
 Lemma msg_eq_dec : forall a b : msg, {a = b} + {a <> b}.
 Proof.
-  decide equality; auto using Z.eq_dec, N.eq_dec, (list_eq_dec N.eq_dec).
+  decide equality; auto using Z.eq_dec, N.eq_dec, (list_eq_dec N.eq_dec), Bool.bool_dec.
 Qed.
 Lemma entry_eq_dec : forall a b : entry, {a = b} + {a <> b}.
 Proof. decide equality; auto using msg_eq_dec, Nat.eq_dec. Qed.
@@ -29,14 +29,14 @@ Ltac cnt_norm := repeat (rewrite ?cnt_app, ?cnt_cons, ?cnt_nil in * ).
 
 (* loss: everything a trace removed from the pending set *)
 Definition loss1 (ev : event) : list entry :=
-  match ev with Delivered e _ _ => [e] | Dropped e => [e] | Flushed l => l | _ => [] end.
+  match ev with Delivered e _ _ => [e] | Dropped e => [e] | Unsendable e _ => [e] | Flushed l => l | _ => [] end.
 Definition loss (evs : list event) := flat_map loss1 evs.
 
 Lemma loss_split y evs :
-  cnt y (loss evs) = (cnt y (delivered evs) + cnt y (dropped evs) + cnt y (flushed evs))%nat.
+  cnt y (loss evs) = (cnt y (delivered evs) + cnt y (dropped evs) + cnt y (unsendable evs) + cnt y (flushed evs))%nat.
 Proof.
   induction evs as [|ev r IH]; [reflexivity|].
-  unfold loss, delivered, dropped, flushed in *. simpl. cnt_norm. rewrite IH.
+  unfold loss, delivered, dropped, unsendable, flushed in *. simpl. cnt_norm. rewrite IH.
   destruct ev; simpl; cnt_norm; lia.
 Qed.
 
@@ -97,7 +97,7 @@ Proof.
   unfold idle. intros H A Lo.
   assert (A' : accepted (evs0 ++ [DriverDie]) = []) by (unfold accepted in *; rewrite flat_map_app, A; reflexivity).
   assert (L' : loss (evs0 ++ [DriverDie]) = []) by (unfold loss in *; rewrite flat_map_app, Lo; reflexivity).
-  destruct (zombie s); inversion H; subst; clear H.
+  destruct (zombie s && negb (fast_nonempty s) && negb (queue_nonempty s)); inversion H; subst; clear H.
   - split; [intro y | unfold stamped]; rewrite ?A', ?L'; destruct s; cbn; [lia | split; [reflexivity|lia]].
   - split; [intro y | unfold stamped]; rewrite ?A, ?Lo; cbn; [lia | split; [reflexivity|lia]].
 Qed.
@@ -116,18 +116,30 @@ Proof.
    (split; [reflexivity | split; [reflexivity | intro y; cbn; cnt_norm; lia]]).
 Qed.
 
+(* the shapes finish can produce *)
+Lemma finish_cases s1 f e now s2 evs r : finish filt s1 f e now = (s2, evs, r) ->
+  s2 = s1 /\ exists x, evs = [Took f e now; x] /\
+  ((exists out, x = Delivered e out now /\ r = None /\ menc out = true /\ enc_ok filt (snd e) = true)
+   \/ (exists out, x = Unsendable e out /\ r = None /\ menc out = false /\ enc_ok filt (snd e) = false)
+   \/ (exists dt, x = Dropped e /\ r = Some dt /\ filt (snd e) = FDrop dt)).
+Proof.
+  unfold finish, fin, enc_ok. destruct (filt (snd e)) as [|out|dt] eqn:EFi.
+  - destruct (menc (snd e)) eqn:EM; intro H; inversion H; subst; (split; [reflexivity|]); eexists; (split; [reflexivity|]);
+      [left | right; left]; exists (snd e); auto.
+  - destruct (menc out) eqn:EM; intro H; inversion H; subst; (split; [reflexivity|]); eexists; (split; [reflexivity|]);
+      [left | right; left]; exists out; auto.
+  - intro H; inversion H; subst. split; [reflexivity|]. eexists; split; [reflexivity|]. right; right. exists dt. auto.
+Qed.
+
 Lemma P_after s1 s f e now : 
   nxt s1 = nxt s ->
   (forall y, cnt y (pending s) = (one y e + cnt y (pending s1))%nat) ->
-  forall evs r,
-  (match filt (snd e) with
-   | FPass => (s1, [Took f e now; Delivered e (snd e) now], None)
-   | FRewrite out => (s1, [Took f e now; Delivered e out now], None)
-   | FDrop dt => (s1, [Took f e now; Dropped e], Some dt)
-   end) = (s1, evs, r) -> P s evs s1.
+  forall s2 evs r,
+  finish filt s1 f e now = (s2, evs, r) -> s2 = s1 /\ P s evs s1.
 Proof.
-  intros HN HC evs r H.
-  destruct (filt (snd e)); inversion H; subst; clear H;
+  intros HN HC s2 evs r H. apply finish_cases in H.
+  destruct H as [-> [x [-> K]]]. split; [reflexivity|].
+  destruct K as [[out [-> _]]|[[out [-> _]]|[dt [-> _]]]];
     (split; [intro y; specialize (HC y); unfold accepted, loss; cbn; cnt_norm; lia
             | unfold stamped, accepted; cbn; split; [reflexivity | lia]]).
 Qed.
@@ -143,19 +155,7 @@ Proof.
       * destruct (dequeue c now (set_lastTake s now)) as [s2 [e|]] eqn:ED.
         -- apply dequeue_cnt in ED. destruct ED as [HN [HF HC]].
            intro H.
-           assert (HS : exists s2', s2' = s2) by eauto. 
-           revert H. 
-           replace (match filt (snd e) with
-                    | FPass => (s2, [Took FromQueue e now; Delivered e (snd e) now], None)
-                    | FRewrite out => (s2, [Took FromQueue e now; Delivered e out now], None)
-                    | FDrop dt => (s2, [Took FromQueue e now; Dropped e], Some dt) end)
-             with (match filt (snd e) with
-                    | FPass => (s2, [Took FromQueue e now; Delivered e (snd e) now], @None Z)
-                    | FRewrite out => (s2, [Took FromQueue e now; Delivered e out now], None)
-                    | FDrop dt => (s2, [Took FromQueue e now; Dropped e], Some dt) end) by reflexivity.
-           intro H.
-           assert (s1 = s2) by (destruct (filt (snd e)); inversion H; reflexivity). subst s2.
-           eapply P_after; [ | | exact H].
+           eapply (P_after s2 s) in H; [destruct H as [-> H]; exact H | | ].
            ++ rewrite HN. destruct s; reflexivity.
            ++ intro y. specialize (HC y). unfold pending. rewrite HF.
               destruct s; cbn in *. cnt_norm. lia.
@@ -175,7 +175,7 @@ Proof.
               apply P_queueMsg in EQM.
               assert (P s ev2 s2).
               { destruct EQM as [L S]. split; [intro y; specialize (L y) | ]; destruct s; cbn in *; auto. }
-              unfold idle in EI. destruct (zombie s2); inversion EI; subst; auto.
+              unfold idle in EI. destruct (zombie s2 && negb (fast_nonempty s2) && negb (queue_nonempty s2)); inversion EI; subst; auto.
               replace (ev2 ++ [DriverDie]) with (ev2 ++ [DriverDie]) by reflexivity.
               eapply P_trans; [exact H0|].
               split; [intro y; destruct s2; unfold accepted, loss, pending, qpending; cbn; cnt_norm; lia | destruct s2; unfold stamped; cbn; split; [reflexivity | lia]].
@@ -184,8 +184,7 @@ Proof.
       * destruct (idle s []) as [s2 ev2] eqn:EI. intro H; inversion H; subst.
         eapply P_idle; eauto.
   - intro H.
-    assert (s1 = set_fast s fr) by (destruct (filt (snd e)); inversion H; reflexivity). subst s1.
-    eapply P_after; [ | | exact H].
+    eapply (P_after (set_fast s fr) s) in H; [destruct H as [-> H]; exact H | | ].
     + destruct s; reflexivity.
     + intro y. unfold pending. destruct s; cbn in *. subst. cnt_norm. lia.
 Qed.
@@ -275,7 +274,7 @@ Proof. apply run_compose; [apply P_refl | apply P_step | apply P_trans]. Qed.
 (* ---- the theorems ---- *)
 Theorem ledger_from s ops s' evs :
   run_from c filt s ops = (s', evs) ->
-  Permutation (pending s ++ accepted evs) (delivered evs ++ dropped evs ++ flushed evs ++ pending s').
+  Permutation (pending s ++ accepted evs) (delivered evs ++ dropped evs ++ unsendable evs ++ flushed evs ++ pending s').
 Proof.
   intro H. apply P_run in H. destruct H as [L _]. apply cnt_perm. intro y.
   specialize (L y). rewrite loss_split in L. cnt_norm. lia.
@@ -283,12 +282,12 @@ Qed.
 
 Theorem ledger ops s' evs :
   run_from c filt st0 ops = (s', evs) ->
-  Permutation (accepted evs) (delivered evs ++ dropped evs ++ flushed evs ++ pending s').
+  Permutation (accepted evs) (delivered evs ++ dropped evs ++ unsendable evs ++ flushed evs ++ pending s').
 Proof. intro H. apply ledger_from in H. exact H. Qed.
 
 Theorem no_duplication ops s' evs :
   run_from c filt st0 ops = (s', evs) ->
-  NoDup (map fst (delivered evs ++ dropped evs ++ flushed evs ++ pending s')).
+  NoDup (map fst (delivered evs ++ dropped evs ++ unsendable evs ++ flushed evs ++ pending s')).
 Proof.
   intro H. pose proof (ledger _ _ _ H) as HP. apply P_run in H. destruct H as [_ [A _]].
   eapply Permutation_NoDup; [apply Permutation_map; exact HP|].
